@@ -1,7 +1,10 @@
 #!/bin/bash
-# apply a seeded change to /repo, run the property's check, undo. usage: tools/seedtest.sh C06-a [check-id] [tier]
+# apply a seeded change to /repo, run the property's check, undo; the committed evidence file is preserved.
+# usage: tools/seedtest.sh C06-a [check-id] [tier]
 name=$1; pid=${2:-${name%%-*}}; tier=${3:-quick}
+cp /verif/evidence/$pid.json /tmp/evidence-$pid.bak 2>/dev/null
 git -C /repo apply /verif/seeded/$name/patch.diff || { echo "PATCH DOES NOT APPLY"; exit 3; }
 cd /verif && ./check $pid --tier $tier; rc=$?
 git -C /repo checkout -- .
+cp /tmp/evidence-$pid.bak /verif/evidence/$pid.json 2>/dev/null
 echo "seed=$name check=$pid rc=$rc"
